@@ -6,29 +6,29 @@
 (*                                                                                                *)
 (*   construction forms      XConstruct         records, header + rows, DataFrame, zip forms,     *)
 (*                                              dictable(d, extra = ...)                          *)
-(*   reads (no effect)       GetT GetAttrT TupleGetT ApplyT IfElseT ReprT DictConcatV             *)
-(*   allocating              CallT (d(c = f, ...)), DoXT, RelabelT, UnpivotT, XyzT, ExtendT       *)
-(*   in place                UpdateFromT, and IfNoneT where the column exists (named deviation)   *)
+(*   reads (no effect)       XGetT XGetAttrT XTupleGetT XApplyT XIfElseT XReprT XDictConcatV             *)
+(*   allocating              XCallT (d(c = f, ...)), XDoXT, XRelabelT, XUnpivotT, XyzT, XExtendT       *)
+(*   in place                XUpdateFromT, and XIfNoneT where the column exists (named deviation)   *)
 (*                                                                                                *)
 (* The session state machine over these operators is DictableX.tla, the trace specification for   *)
 (* recorded histories Trace_DictableX.tla.                                                        *)
 EXTENDS DictableOps
 
 \* ---- outcomes of a call as the session sees them ------------------------------------------------
-OutOk       == <<"ok", 0>>
-OutExc(cls) == <<"exc", cls>>
-OutVal(v)   == <<"val", v>>
-QOk(v)  == [ok |-> TRUE,  v |-> v,    err |-> "ok"]        \* result of a read
-QErr(e) == [ok |-> FALSE, v |-> None, err |-> e]
-Names(pairs) == {pairs[k][1] : k \in 1..Len(pairs)}         \* keys of a sequence of <<key, x>> pairs
-PairGet(pairs, n) == pairs[CHOOSE k \in 1..Len(pairs) : pairs[k][1] = n][2]
-Idx(n) == [i \in 1..n |-> i]
-PosIn(s, x) == CHOOSE k \in 1..Len(s) : s[k] = x
+XOutOk       == <<"ok", 0>>
+XOutExc(cls) == <<"exc", cls>>
+XOutVal(v)   == <<"val", v>>
+XQOk(v)  == [ok |-> TRUE,  v |-> v,    err |-> "ok"]        \* result of a read
+XQErr(e) == [ok |-> FALSE, v |-> None, err |-> e]
+XNames(pairs) == {pairs[k][1] : k \in 1..Len(pairs)}         \* keys of a sequence of <<key, x>> pairs
+XPairGet(pairs, n) == pairs[CHOOSE k \in 1..Len(pairs) : pairs[k][1] = n][2]
+XIdx(n) == [i \in 1..n |-> i]
+XPosIn(s, x) == CHOOSE k \in 1..Len(s) : s[k] = x
 
 \* the column names that records are built from, in the order Python sorts them
-ColU == <<"a", "b", "c", "e", "key", "p", "q", "w", "x", "y", "z">>
-ColRank(c) == CHOOSE k \in 1..Len(ColU) : ColU[k] = c
-SortCols(S) == SetToSortSeq(S, LAMBDA u, v : ColRank(u) < ColRank(v))
+XColU == <<"a", "b", "c", "e", "key", "p", "q", "w", "x", "y", "z">>
+XColRank(c) == CHOOSE k \in 1..Len(XColU) : XColU[k] = c
+XSortCols(S) == SetToSortSeq(S, LAMBDA u, v : XColRank(u) < XColRank(v))
 
 \* Python truthiness including the empty tuple / list
 XTruthy(v) == IF IsSeq(v) THEN Pay(v) # <<>> ELSE Truthy(v)
@@ -37,7 +37,7 @@ XTruthy(v) == IF IsSeq(v) THEN Pay(v) # <<>> ELSE Truthy(v)
 \* A function is [kind |-> k, args |-> <<parameter names>>]; the driver renders it as a Python lambda
 \* with exactly these parameter names.  The library hands every parameter the row's cell of that name,
 \* or else the default of that name (apply(f, z = 9); d(c = f) and if_none supply key = <column name>).
-FnVal(kind, vs) ==
+XFnVal(kind, vs) ==
     CASE kind = "tuple"    -> VTup(vs)                                    \* lambda a, b: (a, b)
       [] kind = "list"     -> VLst(vs)                                    \* lambda a, b: [a, b]
       [] kind = "ident"    -> vs[1]                                       \* lambda a: a
@@ -45,63 +45,63 @@ FnVal(kind, vs) ==
       [] kind = "coalesce" -> LET nn == SelectSeq(vs, LAMBDA v : ~IsNone(v)) IN IF nn = <<>> THEN None ELSE nn[1]
       [] kind = "zero"     -> IF IsNone(vs[1]) THEN VInt(0) ELSE vs[1]    \* lambda v: 0 if v is None else v
       [] kind = "const"    -> VX                                          \* lambda: 'x'
-EnvOf(row, defs) == [n \in DOMAIN row \cup Names(defs) |-> IF n \in DOMAIN row THEN row[n] ELSE PairGet(defs, n)]
-FnMissing(fn, names) == \E k \in 1..Len(fn.args) : fn.args[k] \notin names
-FnEval(fn, env) == FnVal(fn.kind, [k \in 1..Len(fn.args) |-> env[fn.args[k]]])
+XEnvOf(row, defs) == [n \in DOMAIN row \cup XNames(defs) |-> IF n \in DOMAIN row THEN row[n] ELSE XPairGet(defs, n)]
+XFnMissing(fn, names) == \E k \in 1..Len(fn.args) : fn.args[k] \notin names
+XFnEval(fn, env) == XFnVal(fn.kind, [k \in 1..Len(fn.args) |-> env[fn.args[k]]])
 
 \* ---- reads -----------------------------------------------------------------------------------------------
 \* d.get(c, default): the column, or the default once per row
-GetT(t, c, dflt) == QOk(VLst(IF HasCol(t, c) THEN [i \in 1..NR(t) |-> t.rows[i][c]] ELSE [i \in 1..NR(t) |-> dflt]))
+XGetT(t, c, dflt) == XQOk(VLst(IF HasCol(t, c) THEN [i \in 1..NR(t) |-> t.rows[i][c]] ELSE [i \in 1..NR(t) |-> dflt]))
 \* getattr(d, c[, default]): the column, or the default ITSELF, or AttributeError
-GetAttrT(t, c, dflt) == IF HasCol(t, c) THEN QOk(VLst([i \in 1..NR(t) |-> t.rows[i][c]]))
-                        ELSE IF dflt = <<>> THEN QErr("AttributeError") ELSE QOk(dflt[1])
+XGetAttrT(t, c, dflt) == IF HasCol(t, c) THEN XQOk(VLst([i \in 1..NR(t) |-> t.rows[i][c]]))
+                        ELSE IF dflt = <<>> THEN XQErr("AttributeError") ELSE XQOk(dflt[1])
 \* d.apply(f, **defaults) and d[f]: f of every row
-ApplyT(t, fn, defs) ==
-    IF NR(t) > 0 /\ FnMissing(fn, ColSet(t) \cup Names(defs)) THEN QErr("TypeError")
-    ELSE QOk(VLst([i \in 1..NR(t) |-> FnEval(fn, EnvOf(t.rows[i], defs))]))
+XApplyT(t, fn, defs) ==
+    IF NR(t) > 0 /\ XFnMissing(fn, ColSet(t) \cup XNames(defs)) THEN XQErr("TypeError")
+    ELSE XQOk(VLst([i \in 1..NR(t) |-> XFnEval(fn, XEnvOf(t.rows[i], defs))]))
 \* an item is a column <<"c", name>> or a function <<"f", fn>>
-ItemErr(it, cols, dn) == IF it[1] = "c" THEN (IF it[2] \in cols THEN "ok" ELSE "KeyError")
-                         ELSE (IF FnMissing(it[2], cols \cup dn) THEN "TypeError" ELSE "ok")
-ItemVal(it, row, defs) == IF it[1] = "c" THEN row[it[2]] ELSE FnEval(it[2], EnvOf(row, defs))
+XItemErr(it, cols, dn) == IF it[1] = "c" THEN (IF it[2] \in cols THEN "ok" ELSE "KeyError")
+                         ELSE (IF XFnMissing(it[2], cols \cup dn) THEN "TypeError" ELSE "ok")
+XItemVal(it, row, defs) == IF it[1] = "c" THEN row[it[2]] ELSE XFnEval(it[2], XEnvOf(row, defs))
 \* d[i1, i2, ...]: one tuple per row; the first item that cannot be had decides the exception
-TupleGetT(t, items) ==
-    LET errs == [k \in 1..Len(items) |-> IF items[k][1] = "f" /\ NR(t) = 0 THEN "ok" ELSE ItemErr(items[k], ColSet(t), {})]
+XTupleGetT(t, items) ==
+    LET errs == [k \in 1..Len(items) |-> IF items[k][1] = "f" /\ NR(t) = 0 THEN "ok" ELSE XItemErr(items[k], ColSet(t), {})]
         bad  == {k \in 1..Len(items) : errs[k] # "ok"}
-    IN  IF bad # {} THEN QErr(errs[Min(bad)])
-        ELSE QOk(VLst([i \in 1..NR(t) |-> VTup([k \in 1..Len(items) |-> ItemVal(items[k], t.rows[i], <<>>)])]))
+    IN  IF bad # {} THEN XQErr(errs[Min(bad)])
+        ELSE XQOk(VLst([i \in 1..NR(t) |-> VTup([k \in 1..Len(items) |-> XItemVal(items[k], t.rows[i], <<>>)])]))
 \* d.if_else(cond, a, b, **defaults): per row, a or b (column or function) according to the truth of cond;
 \* only the branch a row takes is looked at, so a missing branch matters only if some row takes it
-IfElseT(t, cond, a, b, defs) ==
+XIfElseT(t, cond, a, b, defs) ==
     LET cols  == ColSet(t)
-        ce    == ItemErr(cond, cols, {})
-        br(i) == IF XTruthy(ItemVal(cond, t.rows[i], <<>>)) THEN a ELSE b
-        bad   == {i \in 1..NR(t) : ItemErr(br(i), cols, Names(defs)) # "ok"}
-    IN  IF NR(t) = 0 THEN QOk(VLst(<<>>))
-        ELSE IF ce # "ok" THEN QErr(ce)
-        ELSE IF bad # {} THEN QErr(ItemErr(br(Min(bad)), cols, Names(defs)))
-        ELSE QOk(VLst([i \in 1..NR(t) |-> ItemVal(br(i), t.rows[i], defs)]))
+        ce    == XItemErr(cond, cols, {})
+        br(i) == IF XTruthy(XItemVal(cond, t.rows[i], <<>>)) THEN a ELSE b
+        bad   == {i \in 1..NR(t) : XItemErr(br(i), cols, XNames(defs)) # "ok"}
+    IN  IF NR(t) = 0 THEN XQOk(VLst(<<>>))
+        ELSE IF ce # "ok" THEN XQErr(ce)
+        ELSE IF bad # {} THEN XQErr(XItemErr(br(Min(bad)), cols, XNames(defs)))
+        ELSE XQOk(VLst([i \in 1..NR(t) |-> XItemVal(br(i), t.rows[i], defs)]))
 \* repr / to_string, the shape only: dimensions, header, number of lines, and the "...n rows..." line
 \* that repr puts in the middle of more than six rows (0 = there is none)
-ReprT(t) == QOk(VTup(<<VInt(NR(t)), VInt(Len(t.cols)), VLst([k \in 1..Len(t.cols) |-> VStr(t.cols[k])]),
+XReprT(t) == XQOk(VTup(<<VInt(NR(t)), VInt(Len(t.cols)), VLst([k \in 1..Len(t.cols) |-> VStr(t.cols[k])]),
                        VInt(IF t.cols = <<>> THEN 0 ELSE NR(t) + 1), VInt(IF NR(t) > 6 THEN NR(t) ELSE 0)>>))
 \* dict_concat(records): every key that occurs -> its values record by record, None where a record lacks it
-DictConcatV(recs) == <<"map", [c \in RecCols(recs) |-> VLst([r \in 1..Len(recs) |-> RecGet(recs[r], c)])]>>
+XDictConcatV(recs) == <<"map", [c \in RecCols(recs) |-> VLst([r \in 1..Len(recs) |-> RecGet(recs[r], c)])]>>
 \* dict_concat(list(d)): the rows back to columns (nothing at all for a table without rows)
-DictConcatRowsV(t) == <<"map", [c \in (IF NR(t) = 0 THEN {} ELSE ColSet(t)) |-> VLst([i \in 1..NR(t) |-> t.rows[i][c]])]>>
+XDictConcatRowsV(t) == <<"map", [c \in (IF NR(t) = 0 THEN {} ELSE ColSet(t)) |-> VLst([i \in 1..NR(t) |-> t.rows[i][c]])]>>
 
 \* ---- construction forms ------------------------------------------------------------------------------------
 \* records: one record keeps its own key order, several records with the same keys come out with SORTED keys
 \* (records with different keys: the order is unspecified - they are left to C01, which compares columns as sets)
-SameKeys(recs) == \A i \in 1..Len(recs) : Names(recs[i]) = Names(recs[1])
+XSameKeys(recs) == \A i \in 1..Len(recs) : XNames(recs[i]) = XNames(recs[1])
 XFromRecords(recs) ==
     IF recs = <<>> THEN Ok(EmptyT)
     ELSE IF Len(recs) = 1 THEN Ok(RecordT(recs[1]))
-    ELSE Ok(Tbl(SortCols(Names(recs[1])), [i \in 1..Len(recs) |-> [c \in Names(recs[1]) |-> RecGet(recs[i], c)]]))
+    ELSE Ok(Tbl(XSortCols(XNames(recs[1])), [i \in 1..Len(recs) |-> [c \in XNames(recs[1]) |-> RecGet(recs[i], c)]]))
 \* dictable(d, c1 = .., c2 = ..): the extra columns first (a name the table has keeps the TABLE's values at
 \* the extra's place), then the table's own columns; scalars and one-row sides broadcast
-ExtendT(t, extra) ==
-    LET cs   == [k \in 1..Len(extra) |-> extra[k][1]] \o SelectSeq(t.cols, LAMBDA c : c \notin Names(extra))
-        arg(c) == IF HasCol(t, c) THEN <<"l", [i \in 1..NR(t) |-> t.rows[i][c]]>> ELSE PairGet(extra, c)
+XExtendT(t, extra) ==
+    LET cs   == [k \in 1..Len(extra) |-> extra[k][1]] \o SelectSeq(t.cols, LAMBDA c : c \notin XNames(extra))
+        arg(c) == IF HasCol(t, c) THEN <<"l", [i \in 1..NR(t) |-> t.rows[i][c]]>> ELSE XPairGet(extra, c)
     IN  FromCols(cs, [k \in 1..Len(cs) |-> arg(cs[k])])
 XConstruct(s) ==
     CASE s.kind = "recs"  -> XFromRecords(s.recs)                         \* dictable([record, ...])
@@ -112,113 +112,113 @@ XConstruct(s) ==
 
 \* ---- d(c1 = v, c2 = f, ...) ------------------------------------------------------------------------------------
 \* kws: sequence of <<name, spec>>, spec = <<"s", v>> | <<"l", vs>> (constants) | <<"f", fn>> (computed per row)
-IsF(kw)     == kw[2][1] = "f"
-Consts(kws) == SelectSeq(kws, LAMBDA kw : ~IsF(kw))
-Funcs(kws)  == SelectSeq(kws, LAMBDA kw : IsF(kw))
-Reads(kw)   == Range(kw[2][2].args)
+XIsF(kw)     == kw[2][1] = "f"
+XConsts(kws) == SelectSeq(kws, LAMBDA kw : ~XIsF(kw))
+XFuncs(kws)  == SelectSeq(kws, LAMBDA kw : XIsF(kw))
+XReads(kw)   == Range(kw[2][2].args)
 \* one computed column: f of every row (the hidden default key = the new column's name), then set
-EvalFn(t, name, fn) == LET r == ApplyT(t, fn, <<<<"key", VStr(name)>>>>) IN
+XEvalFn(t, name, fn) == LET r == XApplyT(t, fn, <<<<"key", VStr(name)>>>>) IN
                        IF ~r.ok THEN Err(r.err) ELSE SetColT(t, name, <<"l", Pay(r.v)>>)
-RECURSIVE EvalSeq(_, _, _)
-EvalSeq(t, fs, k) == IF k > Len(fs) THEN Ok(t)
-                     ELSE LET r == EvalFn(t, fs[k][1], fs[k][2][2]) IN IF r.ok THEN EvalSeq(r.t, fs, k + 1) ELSE r
+RECURSIVE XEvalSeq(_, _, _)
+XEvalSeq(t, fs, k) == IF k > Len(fs) THEN Ok(t)
+                     ELSE LET r == XEvalFn(t, fs[k][1], fs[k][2][2]) IN IF r.ok THEN XEvalSeq(r.t, fs, k + 1) ELSE r
 \* LAW.  The constants are set first.  The functions are evaluated in an order in which no function reads a
 \* column that itself or a later function of the same call produces; only the very last may read its own
 \* column (named deviation SelfReferenceIsCircular: d(a = f(a), b = g(b)) is refused as "circular" although
 \* d(a = f(a)) alone is fine).  Without such an order the call is refused.  Every admissible order gives the
 \* same table (checked by TLC: CallConfluent).
-Admissible(o) == \A i \in 1..Len(o) : (Reads(o[i]) \cap {o[j][1] : j \in i..Len(o)}) \subseteq (IF i = Len(o) THEN {o[i][1]} ELSE {})
-CallLaw(t, kws) ==
-    LET c == UpdateT(t, Consts(kws), 1)
-        ords == {o \in SetToSeqs(Range(Funcs(kws))) : Admissible(o)}
+XAdmissible(o) == \A i \in 1..Len(o) : (XReads(o[i]) \cap {o[j][1] : j \in i..Len(o)}) \subseteq (IF i = Len(o) THEN {o[i][1]} ELSE {})
+XCallLaw(t, kws) ==
+    LET c == UpdateT(t, XConsts(kws), 1)
+        ords == {o \in SetToSeqs(Range(XFuncs(kws))) : XAdmissible(o)}
     IN  IF ~c.ok THEN {Err("ValueError")}
         ELSE IF ords = {} THEN {Err("ValueError"), Err("TypeError")}     \* refused; which complaint comes first is not specified
-        ELSE {EvalSeq(c.t, o, 1) : o \in ords}
+        ELSE {XEvalSeq(c.t, o, 1) : o \in ords}
 \* MECHANISM (as the library does it): rounds; each round evaluates, in keyword order, the functions that read
 \* no column still to be produced; the last remaining function is evaluated whatever it reads
-RECURSIVE CallLoop(_, _)
-CallLoop(t, rem) ==
-    IF Len(rem) <= 1 THEN EvalSeq(t, rem, 1)
-    ELSE LET ready == SelectSeq(rem, LAMBDA kw : Reads(kw) \cap Names(rem) = {}) IN
+RECURSIVE XCallLoop(_, _)
+XCallLoop(t, rem) ==
+    IF Len(rem) <= 1 THEN XEvalSeq(t, rem, 1)
+    ELSE LET ready == SelectSeq(rem, LAMBDA kw : XReads(kw) \cap XNames(rem) = {}) IN
          IF ready = <<>> THEN Err("ValueError")
-         ELSE LET r == EvalSeq(t, ready, 1) IN
-              IF ~r.ok THEN r ELSE CallLoop(r.t, SelectSeq(rem, LAMBDA kw : Reads(kw) \cap Names(rem) # {}))
-CallT(t, kws) == LET c == UpdateT(t, Consts(kws), 1) IN IF ~c.ok THEN Err(c.err) ELSE CallLoop(c.t, Funcs(kws))
+         ELSE LET r == XEvalSeq(t, ready, 1) IN
+              IF ~r.ok THEN r ELSE XCallLoop(r.t, SelectSeq(rem, LAMBDA kw : XReads(kw) \cap XNames(rem) # {}))
+XCallT(t, kws) == LET c == UpdateT(t, XConsts(kws), 1) IN IF ~c.ok THEN Err(c.err) ELSE XCallLoop(c.t, XFuncs(kws))
 
 \* ---- d.if_none(none, c1 = v, c2 = f) ----------------------------------------------------------------------------
 \* which cells count as missing: None (default) | NaN or infinite | one of some values | a predicate
-Missing(cell, none) == CASE none[1] = "none" -> IsNone(cell)
+XMissing(cell, none) == CASE none[1] = "none" -> IsNone(cell)
                          [] none[1] = "nan"  -> IsNanLike(cell)
                          [] none[1] = "vals" -> PyIn(cell, none[2])
                          [] none[1] = "isstr" -> IsStr(cell)                \* lambda v: isinstance(v, str)
 \* fill the missing cells of an existing column: a constant, or f of the row (key = the column's name);
 \* f is only called for the rows that need it
-FillCol(t, c, spec, none) ==
-    LET need == {i \in 1..NR(t) : Missing(t.rows[i][c], none)} IN
-    IF spec[1] = "f" /\ need # {} /\ FnMissing(spec[2], ColSet(t) \cup {"key"}) THEN Err("TypeError")
+XFillCol(t, c, spec, none) ==
+    LET need == {i \in 1..NR(t) : XMissing(t.rows[i][c], none)} IN
+    IF spec[1] = "f" /\ need # {} /\ XFnMissing(spec[2], ColSet(t) \cup {"key"}) THEN Err("TypeError")
     ELSE Ok(Tbl(t.cols, [i \in 1..Len(t.rows) |-> [cc \in ColSet(t) |->
                 IF cc = c /\ i \in need
-                THEN (IF spec[1] = "f" THEN FnEval(spec[2], EnvOf(t.rows[i], <<<<"key", VStr(c)>>>>)) ELSE spec[2])
+                THEN (IF spec[1] = "f" THEN XFnEval(spec[2], XEnvOf(t.rows[i], <<<<"key", VStr(c)>>>>)) ELSE spec[2])
                 ELSE t.rows[i][cc]]]))
 \* Named deviation IfNoneInPlace: where the column exists the cells are filled IN THE OPERAND, and if every
 \* named column exists the operand itself is returned; the first column the table lacks makes the call go on
 \* with a new table (as d(c = ..) would), and the operand keeps what was filled before that point.
 \* Result: self = the operand afterwards, res = the returned table, alias = "the returned table is the operand".
-RECURSIVE IfNoneLoop(_, _, _, _, _)
-IfNoneLoop(self, cur, own, none, kws) ==
+RECURSIVE XIfNoneLoop(_, _, _, _, _)
+XIfNoneLoop(self, cur, own, none, kws) ==
     IF kws = <<>> THEN [self |-> self, res |-> cur, alias |-> own, err |-> "ok"]
-    ELSE LET r == IF HasCol(cur, kws[1][1]) THEN FillCol(cur, kws[1][1], kws[1][2], none) ELSE CallT(cur, <<kws[1]>>) IN
+    ELSE LET r == IF HasCol(cur, kws[1][1]) THEN XFillCol(cur, kws[1][1], kws[1][2], none) ELSE XCallT(cur, <<kws[1]>>) IN
          IF ~r.ok THEN [self |-> self, res |-> cur, alias |-> own, err |-> r.err]
-         ELSE IF HasCol(cur, kws[1][1]) THEN IfNoneLoop(IF own THEN r.t ELSE self, r.t, own, none, Tail(kws))
-         ELSE IfNoneLoop(self, r.t, FALSE, none, Tail(kws))
-IfNoneT(t, none, kws) == IfNoneLoop(t, t, TRUE, none, kws)
+         ELSE IF HasCol(cur, kws[1][1]) THEN XIfNoneLoop(IF own THEN r.t ELSE self, r.t, own, none, Tail(kws))
+         ELSE XIfNoneLoop(self, r.t, FALSE, none, Tail(kws))
+XIfNoneT(t, none, kws) == XIfNoneLoop(t, t, TRUE, none, kws)
 
 \* ---- d.do(functions, *columns) --------------------------------------------------------------------------------------
 \* a do-function is [kind, extras]: lambda v, <extras>: ...; v is the cell, the extras are the row's cells of
 \* those names.  Column after column, function after function - a later step sees what the earlier ones wrote.
-DoOne(t, c, f) ==
+XDoOne(t, c, f) ==
     IF NR(t) > 0 /\ \E k \in 1..Len(f.extras) : ~HasCol(t, f.extras[k]) THEN Err("TypeError")
     ELSE Ok(Tbl(t.cols, [i \in 1..Len(t.rows) |-> [cc \in ColSet(t) |->
-                IF cc = c THEN FnVal(f.kind, <<t.rows[i][c]>> \o [k \in 1..Len(f.extras) |-> t.rows[i][f.extras[k]]])
+                IF cc = c THEN XFnVal(f.kind, <<t.rows[i][c]>> \o [k \in 1..Len(f.extras) |-> t.rows[i][f.extras[k]]])
                 ELSE t.rows[i][cc]]]))
-RECURSIVE DoSteps(_, _, _)
-DoSteps(t, steps, k) == IF k > Len(steps) THEN Ok(t)
-                        ELSE LET r == DoOne(t, steps[k][1], steps[k][2]) IN IF r.ok THEN DoSteps(r.t, steps, k + 1) ELSE r
+RECURSIVE XDoSteps(_, _, _)
+XDoSteps(t, steps, k) == IF k > Len(steps) THEN Ok(t)
+                        ELSE LET r == XDoOne(t, steps[k][1], steps[k][2]) IN IF r.ok THEN XDoSteps(r.t, steps, k + 1) ELSE r
 \* cs = <<>> with star = TRUE means "all columns" (d.do(f)); d.do(f, []) does nothing
-DoXT(t, fs, cs, star) ==
+XDoXT(t, fs, cs, star) ==
     LET on == IF cs = <<>> /\ star THEN t.cols ELSE cs
         steps == [j \in 1..(Len(on) * Len(fs)) |-> <<on[((j - 1) \div Len(fs)) + 1], fs[((j - 1) % Len(fs)) + 1]>>]
-    IN  DoSteps(t, steps, 1)
+    IN  XDoSteps(t, steps, 1)
 
 \* ---- d.relabel / d.rename -----------------------------------------------------------------------------------------------
-FnName(f, c) == CASE f = "double"  -> c \o c                                       \* lambda c: c + c
+XFnName(f, c) == CASE f = "double"  -> c \o c                                       \* lambda c: c + c
                   [] f = "const_k" -> "k"                                          \* lambda c: 'k'
                   [] f = "ab_to_c" -> IF c \in {"a", "b"} THEN "c" ELSE c           \* lambda c: 'c' if c in ('a', 'b') else c
-NewName(form, c, k, n) ==
-    CASE form.kind = "map"    -> IF c \in Names(form.pairs) THEN PairGet(form.pairs, c) ELSE c     \* relabel(a = 'b') / relabel({'a': 'b'})
-      [] form.kind = "fn"     -> FnName(form.fn, c)                                               \* relabel(function)
-      [] form.kind = "fnmap"  -> IF c \in Names(form.pairs) THEN PairGet(form.pairs, c) ELSE FnName(form.fn, c)   \* relabel(function, a = 'b')
+XNewName(form, c, k, n) ==
+    CASE form.kind = "map"    -> IF c \in XNames(form.pairs) THEN XPairGet(form.pairs, c) ELSE c     \* relabel(a = 'b') / relabel({'a': 'b'})
+      [] form.kind = "fn"     -> XFnName(form.fn, c)                                               \* relabel(function)
+      [] form.kind = "fnmap"  -> IF c \in XNames(form.pairs) THEN XPairGet(form.pairs, c) ELSE XFnName(form.fn, c)   \* relabel(function, a = 'b')
       [] form.kind = "prefix" -> form.s \o c                                                      \* relabel('x_')
       [] form.kind = "suffix" -> c \o form.s                                                      \* relabel('_x')
       [] form.kind = "list"   -> IF Len(form.names) = n /\ n # 1 THEN form.names[k] ELSE c         \* relabel(['p', 'q']): by position, if it fits
 \* LAW.  Every column gets its new name; where several columns get the same name the result has ONE column of
 \* that name, at the place of the first of them and with the values of the LAST of them.
-RelabelT(t, form) ==
+XRelabelT(t, form) ==
     LET n  == Len(t.cols)
-        nm == [k \in 1..n |-> NewName(form, t.cols[k], k, n)]
-        firsts == SelectSeq(Idx(n), LAMBDA k : \A j \in 1..(k - 1) : nm[j] # nm[k])
+        nm == [k \in 1..n |-> XNewName(form, t.cols[k], k, n)]
+        firsts == SelectSeq(XIdx(n), LAMBDA k : \A j \in 1..(k - 1) : nm[j] # nm[k])
         newcols == [i \in 1..Len(firsts) |-> nm[firsts[i]]]
         src(c2) == t.cols[CHOOSE k \in 1..n : nm[k] = c2 /\ \A j \in (k + 1)..n : nm[j] # c2]
     IN  Ok(Tbl(newcols, IF newcols = <<>> THEN <<>> ELSE [i \in 1..Len(t.rows) |-> [c2 \in Range(newcols) |-> t.rows[i][src(c2)]]]))
 
 \* ---- d.update(other table) ----------------------------------------------------------------------------------------------
 \* the other table's columns assigned one after the other (C01's UpdateT: a rejected one stops the call)
-UpdateFromT(t, u) == UpdateT(t, [k \in 1..Len(u.cols) |-> <<u.cols[k], <<"l", [i \in 1..NR(u) |-> u.rows[i][u.cols[k]]]>>>>], 1)
+XUpdateFromT(t, u) == UpdateT(t, [k \in 1..Len(u.cols) |-> <<u.cols[k], <<"l", [i \in 1..NR(u) |-> u.rows[i][u.cols[k]]]>>>>], 1)
 
 \* ---- d.unpivot(x, y, z) ---------------------------------------------------------------------------------------------------
 \* ysel = <<>>: every column that is not in xs becomes a (y, z) pair; otherwise the named ones only
 \* (d.unpivot(x, {y: [..]}, z)).  One output row per input row and y column, in that order.
-UnpivotT(t, xs, y, z, ysel) ==
+XUnpivotT(t, xs, y, z, ysel) ==
     LET ycols == IF ysel = <<>> THEN SelectSeq(t.cols, LAMBDA c : c \notin Range(xs)) ELSE ysel
         n == Len(ycols)   N == NR(t)
         rep(c) == [j \in 1..(N * n) |-> t.rows[((j - 1) \div n) + 1][c]]
@@ -229,29 +229,29 @@ UnpivotT(t, xs, y, z, ysel) ==
              IN  SetColT(wy, z, <<"l", [j \in 1..(N * n) |-> t.rows[((j - 1) \div n) + 1][ycols[((j - 1) % n) + 1]]]>>)
 
 \* ---- d.xyz(x, y, z, agg): the pivot table --------------------------------------------------------------------------------------
-\* Domain: the x cells are ints, the y cells are strings of ColU that are not x columns.
+\* Domain: the x cells are ints, the y cells are strings of XColU that are not x columns.
 XyzDomain(t, xs, y) ==
     /\ xs # <<>> /\ Range(xs) \subseteq ColSet(t) /\ y \in ColSet(t) \ Range(xs)
     /\ Cardinality(Range(xs)) = Len(xs)
     /\ \A i \in 1..NR(t) : /\ \A k \in 1..Len(xs) : Tag(t.rows[i][xs[k]]) = "i"
-                           /\ IsStr(t.rows[i][y]) /\ Pay(t.rows[i][y]) \in Range(ColU) \ Range(xs)
-Agg(a, vs) == CASE a = "none"  -> VLst(vs)               \* no aggregation: the list
+                           /\ IsStr(t.rows[i][y]) /\ Pay(t.rows[i][y]) \in Range(XColU) \ Range(xs)
+XAgg(a, vs) == CASE a = "none"  -> VLst(vs)               \* no aggregation: the list
                 [] a = "last"  -> vs[Len(vs)]            \* lambda v: v[-1]
                 [] a = "first" -> vs[1]                  \* lambda v: v[0]
                 [] a = "len"   -> VInt(Len(vs))          \* len
-LexLt(u, v) == \E k \in 1..Len(u) : (\A j \in 1..(k - 1) : u[j] = v[j]) /\ Pay(u[k]) < Pay(v[k])
+XLexLt(u, v) == \E k \in 1..Len(u) : (\A j \in 1..(k - 1) : u[j] = v[j]) /\ Pay(u[k]) < Pay(v[k])
 \* LAW.  One row per distinct x key (ascending), one column per distinct y value (ascending) after the x
 \* columns; a cell aggregates the z of the rows with that key and that y in their original order, None if none.
 XyzT(t, xs, y, z, agg) ==
     LET N == NR(t)
         xk(i) == [k \in 1..Len(xs) |-> t.rows[i][xs[k]]]
-        XK == SetToSortSeq({xk(i) : i \in 1..N}, LexLt)
-        YK == SortCols({Pay(t.rows[i][y]) : i \in 1..N})
-        zv(i) == ItemVal(z, t.rows[i], <<>>)
-        cell(key, yv) == LET ids == SelectSeq(Idx(N), LAMBDA i : xk(i) = key /\ Pay(t.rows[i][y]) = yv) IN
-                         IF ids = <<>> THEN None ELSE Agg(agg, [j \in 1..Len(ids) |-> zv(ids[j])])
+        XK == SetToSortSeq({xk(i) : i \in 1..N}, XLexLt)
+        YK == XSortCols({Pay(t.rows[i][y]) : i \in 1..N})
+        zv(i) == XItemVal(z, t.rows[i], <<>>)
+        cell(key, yv) == LET ids == SelectSeq(XIdx(N), LAMBDA i : xk(i) = key /\ Pay(t.rows[i][y]) = yv) IN
+                         IF ids = <<>> THEN None ELSE XAgg(agg, [j \in 1..Len(ids) |-> zv(ids[j])])
     IN  IF N = 0 THEN Ok(Tbl(xs, <<>>))
-        ELSE IF ItemErr(z, ColSet(t), {}) # "ok" THEN Err(ItemErr(z, ColSet(t), {}))
+        ELSE IF XItemErr(z, ColSet(t), {}) # "ok" THEN Err(XItemErr(z, ColSet(t), {}))
         ELSE Ok(Tbl(xs \o YK, [r \in 1..Len(XK) |-> [c \in Range(xs) \cup Range(YK) |->
-                        IF c \in Range(xs) THEN XK[r][PosIn(xs, c)] ELSE cell(XK[r], c)]]))
+                        IF c \in Range(xs) THEN XK[r][XPosIn(xs, c)] ELSE cell(XK[r], c)]]))
 =============================================================================
